@@ -208,9 +208,13 @@ func (d *Decoder) Decode(v interface{}) error {
 // DecodeContext reads the next JSON-encoded value from its
 // input and stores it in the value pointed to by v with context.Context.
 func (d *Decoder) DecodeContext(ctx context.Context, v interface{}) error {
+	// the context belongs to this call only
+	savedOption := *d.s.Option
 	d.s.Option.Flags |= decoder.ContextOption
 	d.s.Option.Context = ctx
-	return d.DecodeWithOption(v)
+	err := d.DecodeWithOption(v)
+	*d.s.Option = savedOption
+	return err
 }
 
 func (d *Decoder) DecodeWithOption(v interface{}, optFuncs ...DecodeOptionFunc) error {
@@ -233,10 +237,14 @@ func (d *Decoder) DecodeWithOption(v interface{}, optFuncs ...DecodeOptionFunc) 
 		return err
 	}
 	s := d.s
+	// options are per call: the stream's option block is restored afterwards
+	savedOption := *s.Option
 	for _, optFunc := range optFuncs {
 		optFunc(s.Option)
 	}
-	if err := dec.DecodeStream(s, 0, header.ptr); err != nil {
+	err = dec.DecodeStream(s, 0, header.ptr)
+	*s.Option = savedOption
+	if err != nil {
 		return err
 	}
 	s.Reset()
